@@ -25,12 +25,15 @@ KSmall == atoi(IOEnv.KSMALL)
 SkLo   == atoi(IOEnv.SKLO)
 SkHi   == atoi(IOEnv.SKHI)
 
-LayoutsOf(sk) ==
-  Deviations(sk, KFull, OptsFull) \cup Deviations(sk, KMed, OptsMed) \cup
-  Deviations(sk, KSmall, OptsSmall) \cup { Uniform(sk, g) : g \in OptsFull }
+LayoutsOf(k) ==
+  LET sk == Skeletons[k] IN
+  IF k <= NSmall
+  THEN Deviations(sk, KFull, OptsFull) \cup Deviations(sk, KMed, OptsMed) \cup
+       Deviations(sk, KSmall, OptsSmall) \cup { Uniform(sk, g) : g \in OptsFull }
+  ELSE Deviations(sk, 1, OptsFull) \cup { Uniform(sk, g) : g \in OptsFull }
 
 GenInit ==
-  \E k \in SkLo .. SkHi : \E d \in LayoutsOf(Skeletons[k]) : st = [sk |-> k, dev |-> d]
+  \E k \in SkLo .. SkHi : \E d \in LayoutsOf(k) : st = [sk |-> k, dev |-> d]
 
 GenNext == UNCHANGED st
 
